@@ -47,6 +47,7 @@ HOOK_COMMITS = [
     "c3177feaf6928496a10a4eb0a6033f17052334e7",
     "fa850e7b8c519544f58724ad57983943c882cc39",
     "3772dc97559afc4ce1e7fc13fab68ef5816cfbdb",
+    "8f54ee07b53e5748d855503a4dcaf4981f0f9852",
 ]
 
 LEVEL_NOTE_COMMON = (
@@ -92,7 +93,7 @@ def c02_relevant(kind, rec, case):
     if scen_of(case).startswith("tap"):
         # explanation tap: calls of the semantic minimiser (exact correspondence with the model) and
         # learned nogoods (implied by the model); the explanations themselves are C17's
-        return kind in ("semmin", "recmin", "nogood", "panic", "hang", "nonterm")
+        return kind in ("semmin", "recmin", "nogood", "derive", "panic", "hang", "nonterm")
     if kind == "solset":
         # the end of an enumeration is an Unsatisfiable verdict on the model plus blocking clauses:
         # a missing solution means it came too early (foreign / repeated solutions are C01 / C03)
